@@ -244,7 +244,10 @@ class XgettextProgram:
             return None
 
         rsp_file = Path(self.interpreter.environment.build_dir, self.interpreter.subdir, name+'.rsp')
-        rsp_file.write_text(source_list, encoding='utf-8')
+        # Do not touch an unchanged response file: it is an input of the pot target
+        rsp_tmp = rsp_file.with_name(rsp_file.name + '~')
+        rsp_tmp.write_text(source_list, encoding='utf-8')
+        mesonlib.replace_if_different(str(rsp_file), str(rsp_tmp))
 
         return mesonlib.File.from_built_file(self.interpreter.subdir, rsp_file.name)
 
